@@ -81,6 +81,29 @@ class Check(PropertyCheck):
             while leaf['kind'] == 'compound':
                 leaf = leaf['a'] if rng.random() < 0.5 else leaf['b']
             pts = query_points(rng, leaf, 16)
+            if pm == 'annulus' and rng.random() < 0.4:
+                # exact arithmetic: lattice centre, Pythagorean radii / integer sizes, no rotation; query positions
+                # EXACTLY on the inner and outer boundaries (the annulus must answer what outer-and-not-inner answers)
+                cx, cy = rng.randint(-3, 3) + rng.choice([0.0, 0.5]), rng.randint(-3, 3) + rng.choice([0.0, 0.5])
+                d['c'] = [cx, cy]
+                TRI = {1.5: [], 2.5: [(1.5, 2.0)], 5.0: [(3.0, 4.0)], 10.0: [(6.0, 8.0)], 13.0: [(5.0, 12.0)]}
+                pts = list(pts)
+                if d['kind'] == 'circle_annulus':
+                    r1, r2 = sorted(rng.sample(sorted(TRI), 2))
+                    d['r1'], d['r2'] = r1, r2
+                    for r in (r1, r2):
+                        for (a, b) in [(r, 0.0), (0.0, r)] + TRI[r] + [(y, x) for (x, y) in TRI[r]]:
+                            for sx in (1, -1):
+                                for sy in (1, -1):
+                                    pts.append((cx + sx * a, cy + sy * b))
+                else:
+                    d['angle'] = [0.0, 'deg']
+                    w1, h1 = float(rng.randint(1, 4)), float(rng.randint(1, 4))
+                    d['w1'], d['h1'], d['w2'], d['h2'] = w1, h1, w1 + rng.randint(1, 4), h1 + rng.randint(1, 4)
+                    for (w, h) in ((d['w1'], d['h1']), (d['w2'], d['h2'])):
+                        for sx in (1, -1):
+                            pts += [(cx + sx * w / 2, cy), (cx, cy + sx * h / 2), (cx + sx * w / 2, cy + h / 4),
+                                    (cx + w / 4, cy + sx * h / 2), (cx + sx * w / 2, cy + sx * h / 2)]
             ang = G.rangle(rng)
             case = {'kind': pm, 'region': d, 'pts': [list(p) for p in pts], 'angle': ang,
                     'o': [rng.uniform(-3, 3), rng.uniform(-3, 3)]}
@@ -232,8 +255,7 @@ class Check(PropertyCheck):
             f = {'and': lambda a, b: a and b, 'or': lambda a, b: a or b, 'xor': lambda a, b: a != b}[d['op']]
             neg = not G.truthy(d.get('include', 'absent'))
             for i, p in enumerate(case['pts']):
-                if self._margin(d, p) < EPS:
-                    continue
+                # (no boundary exception: these relate answers of the real code to each other)
                 e = f(real['operands'][0][i], real['operands'][1][i])
                 if real['contains'][i] != (e != neg):
                     bad('compound_contains_wrong', f'point {p}: operands {real["operands"][0][i]},{real["operands"][1][i]} -> {real["contains"][i]} (include={d.get("include")})')
@@ -256,8 +278,7 @@ class Check(PropertyCheck):
         else:
             neg = not G.truthy(d.get('include', 'absent'))
             for i, p in enumerate(case['pts']):
-                if self._margin(d, p) < EPS:
-                    continue
+                # (no boundary exception: this relates answers of the real code to each other)
                 # inner/outer helper regions share the annulus' meta: undo their own flag
                 o = real['outer'][i] != neg
                 inn = real['inner'][i] != neg
